@@ -1,6 +1,7 @@
 /-
   C13 — Utilisation = pod requests over untainted allocatable, order-independent.
 -/
+import EscProofs.P.GenArith
 import Esc.Spec
 namespace Esc.P
 open Esc
